@@ -7,6 +7,9 @@ CONSTANTS
   CrashOn = TRUE
   PowerLossOn = FALSE
   DirSyncOnRemove = TRUE
+  Groups = 1
+  GroupSize = 2
+  TombSyncs = TRUE
   MaxIno = 6
 INVARIANTS NoDuplicates
 
